@@ -158,7 +158,7 @@ def check_thresholds(ctx: Ctx):
         ok = ok and len(loc) == 1 and len(loc[0].args) == 1
         if ok:
             a0 = fv.expand(loc[0].args[0], loc[0], stop=(field, tname), allow_mutated=True, depth=3)
-            ok = a0 is c or U(a0) == U(c)
+            ok = a0 is c or U(a0) in (U(c), U(fv.expand(c, c, stop=(field, tname), allow_mutated=True, depth=3)))
     ctx.decide(ok, "GUARDSHAPE", f"{site}:mask", (fi, masks[0]) if masks else fi,
                "candidates = locate_droplets_in_mask(ScalarField(grid, data > threshold, dtype=bool)): a cell belongs to a droplet iff it strictly exceeds the threshold",
                f"the binary image is `{U(masks[0])[:80] if masks else 'not built'}`; it must be {data} > threshold (strict) on {field}.grid, after the threshold was determined")
